@@ -92,6 +92,7 @@ SESSION = Stage(
     parts={"quick": [("exchange", 2), ("dispatch", 2)], "thorough": [("exchange", 4), ("dispatch", 4)]},
     trace=("Trace_Session.tla", "Trace_Session.cfg"),
     nontrivial=lambda e: e.get("ev") != "Start",
+    behaviours={"quick": [("Gen_Session.tla", "Gen_Session.cfg", 200, 14)], "thorough": [("Gen_Session.tla", "Gen_Session.cfg", 4000, 14)]},
 )
 
 AUTH = Stage(
